@@ -70,6 +70,7 @@ type Exec struct {
 	siteOcc   map[string]int
 	siteIndex map[ssa.Instruction]siteInfo
 	heldHavocked bool
+	siteQualified map[ssa.Instruction]map[string]int
 	sitesHit  map[string]bool
 }
 
